@@ -1,7 +1,7 @@
 (* C17  Semantic tokens: deltas reconstruct the full result; a range answer is the full
    answer restricted to the lines.  (The geometry of individual tokens depends on the lexer;
    see the level note.) *)
-From HL Require Import Lib.Bytes Model.Lexer Model.Semantic Model.SemTokens Proofs.LexerColumns Proofs.SemanticProofs Proofs.SemTokensProofs.
+From HL Require Import Lib.Bytes Model.Lexer Model.Parser Model.Semantic Model.SemTokens Proofs.LexerColumns Proofs.SemanticProofs Proofs.SemTokensProofs.
 Open Scope N_scope.
 
 (* For every tokenizer, every history of opens, edits, closes, full / range / delta requests
@@ -52,6 +52,17 @@ Theorem C17_tokens_start_at_lexemes : forall text toks, lex text = Some toks ->
          (sem_tokens text).
 Proof. exact sem_tokens_start_at_lexer_tokens. Qed.
 Print Assumptions C17_tokens_start_at_lexemes.
+
+(* ... and for EVERY byte string EVERY token sits on the line of a token of the lexer whose start is a
+   place of the text: at that start, or -- the tag and tag-value tokens cut out of a comment -- on the
+   comment's line behind its semicolon.  No semantic token is on a line the text does not have. *)
+Theorem C17_every_token_is_placed : forall text toks, lex text = Some toks ->
+  Forall (fun x => exists k, In k toks /\ tok_ok text k /\
+            ((t_line x = tp_line (tk_pos k) - 1 /\ t_col x = tp_col (tk_pos k) - 1) \/
+             (is_ty (tk_type k) TComment = true /\ t_line x = tp_line (tk_pos k) - 1 /\ tp_col (tk_pos k) - 1 < t_col x)))
+         (sem_tokens text).
+Proof. exact sem_tokens_place. Qed.
+Print Assumptions C17_every_token_is_placed.
 
 (* non-vacuity: a header with a comment whose tag name is Cyrillic; the tag token has the UTF-16
    length of the name plus the colon (4), the value token starts right behind it *)
